@@ -233,6 +233,64 @@ def _test_is_reject_only(fv: FuncVal, test_txt: str) -> bool:
 
 
 # ------------------------------------------------------------------------------------------ scalars
+def _lax_constructor(m: ModuleInfo, lax: ast.FunctionDef, strict_fn: ast.FunctionDef, target: str, res: CheckResult) -> Optional[str]:
+    """the constructor C the lax loader applies to the datum (`return C(d)` or `x = C(d) ... return x`); every rejection of
+    the lax loader outside the handlers around that application (a test on the datum or on the constructed value) must also
+    be a rejection of the strict loader, otherwise strict accepts a datum lax rejects"""
+    d = func_params(lax)[0]
+    parents: Dict[int, ast.AST] = {}
+    for p in ast.walk(lax):
+        for c in ast.iter_child_nodes(p):
+            parents[id(c)] = p
+    returned = {norm(r.value) for r in ast.walk(lax) if isinstance(r, ast.Return) and isinstance(r.value, ast.Name)}
+    ctors: Set[str] = set()
+    result_vars: Set[str] = set()
+    for n in ast.walk(lax):
+        v = None
+        if isinstance(n, ast.Return):
+            v = n.value
+        elif isinstance(n, ast.Assign) and len(n.targets) == 1 and isinstance(n.targets[0], ast.Name) and n.targets[0].id in returned:
+            v = n.value
+        if isinstance(v, ast.Call) and len(v.args) == 1 and not v.keywords and norm(v.args[0]) == d:
+            ctors.add(norm(v.func))
+            if isinstance(n, ast.Assign):
+                result_vars.add(n.targets[0].id)
+    if len(ctors) != 1:
+        return None
+    ctor = next(iter(ctors))
+
+    def canon(test: ast.expr, dn: str, rvars: Set[str]) -> str:
+        t = norm(test)
+        t = re.sub(rf"\b{re.escape(dn)}\b", "DATUM", t)
+        for rv in rvars:
+            t = re.sub(rf"\b{re.escape(rv)}\b", f"{ctor}(DATUM)", t)
+        return t
+    sd = func_params(strict_fn)[0]
+    strict_tests = {canon(n.test, sd, set()) for n in ast.walk(strict_fn) if isinstance(n, ast.If) and _reject_only(n.body)}
+    for r in [x for x in ast.walk(lax) if isinstance(x, ast.Raise)]:
+        p = parents.get(id(r))
+        in_handler = False
+        guard: Optional[ast.If] = None
+        while p is not None and p is not lax:
+            if isinstance(p, ast.ExceptHandler):
+                in_handler = True
+            if isinstance(p, ast.If) and guard is None:
+                guard = p
+            p = parents.get(id(p))
+        if in_handler:
+            continue
+        res.evaluated(f"scalar:lax-rejection:{lax.name}:{norm(guard.test) if guard else 'unconditional'}", True)
+        if guard is None:
+            continue     # unconditional raise at the end: reached only when no path accepted
+        t = canon(guard.test, d, result_vars)
+        if t not in strict_tests:
+            res.add(Finding("C07", "SCALAR.lax-rejects-more", m.rel, lax.name, norm(guard.test),
+                            f"the lax loader of {target} rejects when `{norm(guard.test)}` (outside the handlers of its "
+                            f"constructor call) but the strict loader `{strict_fn.name}` has no such rejection: a datum of the "
+                            "exact target type that strict mode accepts is refused by the lax mode", guard.lineno))
+    return ctor
+
+
 def scalar_pairs(repo: Repo, R: Resolver, res: CheckResult) -> None:
     m = repo.mod("morphing/concrete_provider")
     pairs: List[Tuple[str, ast.expr, ast.expr, int]] = []
@@ -259,11 +317,9 @@ def scalar_pairs(repo: Repo, R: Resolver, res: CheckResult) -> None:
         if lr is not None and lr.kind == "ext":
             lax_ctor = lr.name.split(".")[-1]
         elif lr is not None and lr.kind == "func":
-            ctors = {norm(r.value.func) for r in ast.walk(lr.node) if isinstance(r, ast.Return)
-                     and isinstance(r.value, ast.Call) and len(r.value.args) == 1 and norm(r.value.args[0]) == func_params(lr.node)[0]}
-            if len(ctors) != 1:
-                raise AnalysisError(f"lax loader {norm(le)}: cannot identify its constructor ({ctors})")
-            lax_ctor = ctors.pop()
+            lax_ctor = _lax_constructor(m, lr.node, strict_fn, target, res)
+            if lax_ctor is None:
+                raise AnalysisError(f"lax loader {norm(le)}: cannot identify its constructor")
         else:
             raise AnalysisError(f"ScalarProvider({target}): cannot resolve lax loader `{norm(le)}`")
         d = func_params(strict_fn)[0]
@@ -340,6 +396,19 @@ def literal_rule(repo: Repo, res: CheckResult) -> None:
                         "under strict coercion a Literal with a bool or an exact 0/1 case must test (type(data), data) "
                         "membership: otherwise True is accepted for Literal[1] (bool where an int literal is required)",
                         fn.lineno))
+    # the typed loader must also be *selected* per Literal: the per-retort cache key of the loader factory has to tell
+    # Literal[0, 1] from Literal[False, True] (shared rule with C11, typed-equality taint over norm.args)
+    from .c11 import ted_cache_keys
+    sub = CheckResult("C11")
+    ted_cache_keys(repo, sub)
+    res.evaluated("literal:cache-key-typed", True)
+    for f in sub.findings:
+        if "provide_loader" not in f.qualname:
+            continue
+        res.add(Finding("C07", "DOC.literal-loader-shared-across-types", f.file, f.qualname, f.construct,
+                        "the loader factory of Literal is cached under a key that compares the cases by ==: after a loader "
+                        "for Literal[False, True] exists, Literal[0, 1] receives it and strict mode accepts a bool where an "
+                        "int Literal is required (" + f.message[:160] + ")", f.line))
     z = m.functions.get("_is_exact_zero_or_one")
     res.evaluated("literal:zero-or-one", True)
     if z is None or "type(arg) is int" not in norm(z) or "(0, 1)" not in norm(z):
